@@ -6,6 +6,7 @@ evidence, so the bounds actually covered are visible.
 
  phase A  curated seeds, complete menu, depth 1
  phase B  generated dependence family (13 x 13 statement pairs under one loop), complete menu, depth 1
+ phase B2 generated loop-nest family (3 outer x 6 inner bound shapes x 6 bodies), complete menu, depth 1
  phase C  depth 2 from a named subset of small seeds: first step from the structure-creating
           primitives (STEP1_OPS), second step over the complete menu; level-1 transitions are judged
           in phase A and only generate states here
@@ -75,17 +76,23 @@ def depgen():
     return [s.name for s in seeds.dep_seeds()]
 
 
+def nestgen():
+    return [s.name for s in seeds.nest_seeds()]
+
+
 def standard(tier, d2_states_cap=None, thorough_cap=6000, thorough_budget=3000, dep_ops=None, d2_seeds=None):
     """the plan used by C01/C04/C06/C07/C17 (each passes its own caps)"""
     if tier == "quick":
         return [
             {"label": "A:curated-depth1", "seeds": curated(), "depth": 1, "root_parts": 6},
             {"label": "B:depgen-depth1", "seeds": depgen(), "depth": 1, "root_parts": 1, "ops": dep_ops},
+            {"label": "B2:nestgen-depth1", "seeds": nestgen(), "depth": 1, "root_parts": 1, "ops": dep_ops},
             {"label": "C:subset-depth2", "seeds": list(d2_seeds or QUICK_D2_SEEDS), "depth": 2, "root_parts": 4,
              "ops_by_depth": [STEP1_OPS, None], "oracle_from_depth": 1, "max_states_per_level": d2_states_cap},
         ]
     return [
         {"label": "B:depgen-depth1", "seeds": depgen(), "depth": 1, "root_parts": 1, "ops": dep_ops},
+        {"label": "B2:nestgen-depth1", "seeds": nestgen(), "depth": 1, "root_parts": 1, "ops": dep_ops},
         {"label": "A:curated-depth2", "seeds": curated(), "depth": 2, "root_parts": 8,
          "max_states_per_level": thorough_cap, "time_budget_s": thorough_budget},
     ]
